@@ -1,6 +1,7 @@
 package main
 
 import (
+	"strings"
 	"sync"
 	"sync/atomic"
 	"math/big"
@@ -400,12 +401,52 @@ func c03Conc(c *Ctx) {
 		freeze(baseTime.Add(time.Duration(r.Int64N(1e9))))
 		defer unfreeze()
 		var admitted atomic.Int64
+		var perFresh sync.Map // fresh source name -> *atomic.Int64 (amount admitted)
 		tl, err := ratelimit.New(http.HandlerFunc(func(w http.ResponseWriter, req *http.Request) {
 			a, _ := strconv.ParseInt(req.Header.Get("X-Amt"), 10, 64)
+			if src := req.Header.Get("X-Src"); strings.HasPrefix(src, "fresh-") {
+				v, _ := perFresh.LoadOrStore(src, new(atomic.Int64))
+				v.(*atomic.Int64).Add(a)
+				return
+			}
 			admitted.Add(a)
 		}), hdrExtractor, mkRateSet(rs))
 		if err != nil {
 			return
+		}
+		// first contact: sources the limiter has never seen, each met by several requests for the whole burst at the same
+		// moment (released from a spinning barrier); a source holds one burst, so at most one of them fits
+		for f := 0; f < 24; f++ {
+			src := sfmt("fresh-%d", f)
+			const P = 6
+			var ready, wgf sync.WaitGroup
+			var goFlag atomic.Bool
+			ready.Add(P)
+			for g := 0; g < P; g++ {
+				wgf.Add(1)
+				go func() {
+					defer wgf.Done()
+					req := httptest.NewRequest("GET", "http://x.test/", nil)
+					req.Header.Set("X-Src", src)
+					req.Header.Set("X-Amt", strconv.FormatInt(minBurst, 10))
+					ready.Done()
+					for !goFlag.Load() {
+					}
+					tl.ServeHTTP(httptest.NewRecorder(), req)
+				}()
+			}
+			ready.Wait()
+			goFlag.Store(true)
+			wgf.Wait()
+			c.Count("conc_first_contacts", 1)
+			var got int64
+			if v, ok := perFresh.Load(src); ok {
+				got = v.(*atomic.Int64).Load()
+			}
+			if got > minBurst+1 {
+				c.Violation("conc/bound-exceeded", sfmt("rates %v: a source the limiter had never seen was met by %d simultaneous requests for its whole burst %d at one frozen instant; an amount of %d was admitted", rs, P, minBurst, got), map[string]any{"rates": rs})
+				return
+			}
 		}
 		G := 16
 		per := int(2*minBurst)/G + 20
